@@ -53,7 +53,7 @@ def oracle(case, r):
     u1, u2 = [(int(x) >> 11) * (1.0 / 9007199254740991.0) for x in r["raws"][:2]]
     nrm = math.sqrt(-2 * math.log(u1)) * math.cos(2 * 3.141592653589793238 * u2) * vs["noise"] + 1.0
     tdiv = nrm * math.log(vs["avg"] / vs["V0"]) / g
-    steps = [j * dt for j in range(1, len(T) + 2)]
+    steps = [j * dt for j in range(1, int(T[-1] / dt) + 3)]      # the volume clock ticks at t0 + j*dt, whatever the grid
     hit = [t for t in steps if t - dt < tdiv <= t]
     if any(abs(tdiv - t) < 1e-9 or abs(tdiv - (t - dt)) < 1e-9 for t in steps): return None
     if hit and hit[0] <= T[-1]:
@@ -61,7 +61,11 @@ def oracle(case, r):
         if not r["divided"]: return "division: division time %r falls in the step ending at %g but the result is not flagged as divided" % (tdiv, hit[0])
         if nrows != want: return "division: divided at the step ending %g: %d rows reported, expected %d (rows recorded before the division)" % (hit[0], nrows, want)
     else:
-        if r["divided"] or nrows != len(T): return "division: no division within the horizon (division time %r) but flag=%r rows=%d/%d" % (tdiv, r["divided"], nrows, len(T))
+        # all requested times are reported.  On a grid that is not aligned with the volume clock the last row may be recorded by the
+        # very clock tick (the first one >= T[-1]) at which the cell divides: the flag is then set although no row is missing
+        last_tick = min(t for t in steps if t >= T[-1] - 1e-12)
+        flag_may_be_set = bool(hit) and hit[0] <= last_tick
+        if (r["divided"] and not flag_may_be_set) or nrows != len(T): return "division: no division within the horizon (division time %r) but flag=%r rows=%d/%d" % (tdiv, r["divided"], nrows, len(T))
     return None
 
 def extra_checks(ctx):
